@@ -108,6 +108,8 @@ struct Ent {
     two: bool,
     /// key assignment before each frame (None = leave alone)
     assign: Vec<Option<K>>,
+    /// the governed animator is disabled before frame .0 and enabled again before frame .1
+    dis: Option<(usize, usize)>,
     // model
     acted: Option<K>,
     run_tl: Option<CTimeline>,
@@ -122,20 +124,21 @@ struct Obs {
     pos: Duration,
     comp: C,
     qstate: Option<AnimationState>,
+    enabled: bool,
 }
 
 fn observe(world: &World, e: Entity) -> Obs {
     let a = world.get::<Animator<C>>(e).unwrap();
-    Obs { key: world.get::<AnimationSelector<K, C>>(e).unwrap().timeline_key, state: a.state(), pos: a.timeline_position, comp: world.get::<C>(e).unwrap().clone(), qstate: world.get::<Animator<Q>>(e).map(|q| q.state()) }
+    Obs { key: world.get::<AnimationSelector<K, C>>(e).unwrap().timeline_key, state: a.state(), pos: a.timeline_position, comp: world.get::<C>(e).unwrap().clone(), qstate: world.get::<Animator<Q>>(e).map(|q| q.state()), enabled: a.enabled }
 }
 
 fn case_json(sched: &[f64], ent: &Ent) -> Value {
-    json!({"frame_deltas_s": sched, "key_assignment_before_each_frame": ent.assign.iter().map(|k| k.map(|k| format!("{k:?}"))).collect::<Vec<_>>(), "chain_map_index": ent.chain,
+    json!({"frame_deltas_s": sched, "key_assignment_before_each_frame": ent.assign.iter().map(|k| k.map(|k| format!("{k:?}"))).collect::<Vec<_>>(), "chain_map_index": ent.chain, "animator_disabled_before_frame_and_enabled_before_frame": ent.dis,
            "chain_map": chain_maps()[ent.chain].as_ref().map(|v| v.iter().map(|(a, b)| format!("{a:?}->{b:?}")).collect::<Vec<_>>()), "second_animated_component": ent.two,
            "keys": {"A": "0.5 s, x 10->20", "B": "0.5 s after 0.25 s, x 100->200", "C": "0.5 s infinite, x -10->-20", "N": "no timeline"}, "initial_key": if ent.chain % 2 == 1 { "B (AnimationSelectorBuilder::initial_key)" } else { "A (default)" }, "initial_component": {"x": 3.0, "n": 33, "y": 7.0}})
 }
 
-fn run_schedule(sched: &[f64], assigns: &[Vec<Option<K>>], chain_first: bool, rank0: u64, acc: &mut Acc) {
+fn run_schedule(sched: &[f64], assigns: &[Vec<Option<K>>], windows: &[Option<(usize, usize)>], chain_first: bool, rank0: u64, acc: &mut Acc) {
     let mut d = Driver::new(|app| {
         app.add_plugins((AnimationPlugin::<C>::new(), AnimationPlugin::<Q>::new()));
         app.register_animation_key::<C, K>();
@@ -147,6 +150,7 @@ fn run_schedule(sched: &[f64], assigns: &[Vec<Option<K>>], chain_first: bool, ra
     for (mi, m) in maps.iter().enumerate() {
         for two in [false, true] {
             for h in assigns {
+              for dis in windows {
                 let mut sb = AnimationSelectorBuilder::<K, C>::new();
                 for k in [K::A, K::B, K::C] {
                     sb = sb.add(k, key_timeline(k).unwrap());
@@ -171,7 +175,8 @@ fn run_schedule(sched: &[f64], assigns: &[Vec<Option<K>>], chain_first: bool, ra
                     ec.insert((Q::default(), Animator::<Q>::with_timeline(qtl.clone())));
                 }
                 let e = ec.id();
-                ents.push(Ent { e, chain: mi, two, assign: h.clone(), acted: None, run_tl: None, ended_prev: None, foreign_ended_prev: false });
+                ents.push(Ent { e, chain: mi, two, assign: h.clone(), dis: *dis, acted: None, run_tl: None, ended_prev: None, foreign_ended_prev: false });
+              }
             }
         }
     }
@@ -181,6 +186,14 @@ fn run_schedule(sched: &[f64], assigns: &[Vec<Option<K>>], chain_first: bool, ra
         for ent in ents.iter() {
             if let Some(Some(k)) = ent.assign.get(f) {
                 d.app.world.get_mut::<AnimationSelector<K, C>>(ent.e).unwrap().timeline_key = *k;
+            }
+            if let Some((f1, f2)) = ent.dis {
+                if f == f1 {
+                    d.app.world.get_mut::<Animator<C>>(ent.e).unwrap().enabled = false;
+                }
+                if f == f2 {
+                    d.app.world.get_mut::<Animator<C>>(ent.e).unwrap().enabled = true;
+                }
             }
             pre.push(observe(&d.app.world, ent.e));
         }
@@ -245,9 +258,10 @@ fn run_schedule(sched: &[f64], assigns: &[Vec<Option<K>>], chain_first: bool, ra
                 }
                 match key_tm(seen) {
                     Some(tm) => {
-                        let want_state = if 0.0 >= tm.delay { AnimationState::Playing } else { AnimationState::Waiting };
-                        if n.state != want_state || n.pos != delta {
-                            viol!("S2:animation-not-restarted-on-key-change", "after acting on key {:?}: state {:?} position {:?}, expected {:?} at {:?}", seen, n.state, n.pos, want_state, delta);
+                        // a disabled animator is re-targeted and rewound by the selector but does not start
+                        let (want_state, want_pos) = if !o.enabled { (AnimationState::None, Duration::ZERO) } else if 0.0 >= tm.delay { (AnimationState::Playing, delta) } else { (AnimationState::Waiting, delta) };
+                        if n.state != want_state || n.pos != want_pos {
+                            viol!("S2:animation-not-restarted-on-key-change", "after acting on key {:?}: state {:?} position {:?}, expected {:?} at {:?} (animator enabled: {})", seen, n.state, n.pos, want_state, want_pos, o.enabled);
                         }
                         let mut tl = key_timeline(seen).unwrap();
                         tl.start_with(&o.comp);
@@ -265,6 +279,11 @@ fn run_schedule(sched: &[f64], assigns: &[Vec<Option<K>>], chain_first: bool, ra
                 acc.rule_checks += 2;
                 // S4: not restarted (re-assigning the current key, or nothing happened)
                 match (&ent.run_tl, key_tm(seen)) {
+                    (Some(_), Some(_)) if !o.enabled => {
+                        if n.state != o.state || n.pos != o.pos || n.comp.bits() != o.comp.bits() {
+                            viol!("S4:disabled-animator-moved", "animator disabled, yet state {:?}->{:?} position {:?}->{:?} component {:?}->{:?}", o.state, n.state, o.pos, n.pos, o.comp, n.comp);
+                        }
+                    }
                     (Some(tl), Some(_)) => {
                         let restarted = rank(n.state) < rank(o.state) || (n.state != AnimationState::Ended && n.pos != o.pos + delta) || (n.state == AnimationState::Ended && n.pos != o.pos);
                         if restarted {
@@ -414,7 +433,7 @@ pub fn run(run: Run) -> ! {
                 sched.push(DELTAS[c % 3]);
                 c /= 3;
             }
-            run_schedule(&sched, &hs, chain_first, (si as u64) << 40, acc);
+            run_schedule(&sched, &hs, &[None], chain_first, (si as u64) << 40, acc);
         },
         merge,
     );
@@ -453,9 +472,44 @@ pub fn run(run: Run) -> ! {
             }
         }
     }
-    let dev = par_fold(scheds.len(), Acc::default, |si, acc| run_schedule(&scheds[si], &hdev, chain_first, (1u64 << 62) | (si as u64) << 40, acc), merge);
+    let dev = par_fold(scheds.len(), Acc::default, |si, acc| run_schedule(&scheds[si], &hdev, &[None], chain_first, (1u64 << 62) | (si as u64) << 40, acc), merge);
     let dev_apps = dev.apps;
     merge(&mut acc, dev);
+    // disabled pass: the governed animator is disabled for a window of frames (key changes made meanwhile must
+    // take effect - re-target and rewind at once, start playing once enabled); all schedules x histories with
+    // <= 2 assignments x 4 windows
+    let mut hdis: Vec<Vec<Option<K>>> = vec![vec![None; depth]];
+    for p1 in 0..depth {
+        for k1 in KEYS {
+            let mut h = vec![None; depth];
+            h[p1] = Some(k1);
+            hdis.push(h.clone());
+            for p2 in (p1 + 1)..depth {
+                for k2 in KEYS {
+                    let mut h2 = h.clone();
+                    h2[p2] = Some(k2);
+                    hdis.push(h2);
+                }
+            }
+        }
+    }
+    let windows = [Some((0usize, 2usize)), Some((1, 3)), Some((2, 4)), Some((1, depth))];
+    let disp = par_fold(
+        nsched,
+        Acc::default,
+        |si, acc| {
+            let mut sched = vec![];
+            let mut c = si;
+            for _ in 0..depth {
+                sched.push(DELTAS[c % 3]);
+                c /= 3;
+            }
+            run_schedule(&sched, &hdis, &windows, chain_first, (3u64 << 60) | (si as u64) << 40, acc);
+        },
+        merge,
+    );
+    let dis_apps = disp.apps;
+    merge(&mut acc, disp);
     // mirror pass over all schedules of length depth+2
     let mdepth = depth + 2;
     let mir = par_fold(
@@ -481,7 +535,7 @@ pub fn run(run: Run) -> ! {
     cov.insert("traces_validated_against_impl".into(), json!(acc.apps));
     cov.insert("evaluations".into(), json!(acc.rule_checks));
     cov.insert("distinct_nontrivial".into(), json!(acc.switches + acc.chain_fires));
-    cov.insert("rule".into(), json!(format!("real headless bevy App (AnimationPlugin<C>, AnimationPlugin<Q>, register_animation_key::<C,K>, hand-driven Time): ALL {} frame-delta schedules of length {} over {{1/4, 8, 0}} s x ALL {} key-assignment histories (before each frame: nothing or key := A|B|C|N, including the current key) x 6 chain maps (none, A->B, A->B+B->A, A->N, B->C, reset_after(B)); initial key A (default) or B (builder) x {{one animated component, a second component Q with its own short animator}}; plus a deviation-bounded pass ({} schedules of {} frames, default delta 1/4, <= {} deviations) with <= 2 assignments; plus a mirror pass ({} Apps: all schedules of length {}, entities whose OTHER animator is reset before every frame and therefore reports a state change in every frame, once with C governed / Q foreign and once with Q governed / C foreign, so that both orders of the two events occur whatever order the animate systems have in this process; S5/S6 only). Rules: S1 component unchanged in the frame a key change is acted on; S2 animation restarted from position 0 on the new key's timeline, thereafter the component equals that timeline started from the values at the switch; S3 key without timeline: state None, component frozen; S4 re-assigning the current key restarts nothing; S5 governed animator ended on k in frame f and chain(k)=k' and the user did not re-assign => key is k' in frame f+1; S6 the key changes only by assignment or S5 (the Ended must come from the governed animator and be applied to the key that ended). non-trivial = key changes acted on + chain moves", nsched, depth, hs.len(), dev_apps, horizon, k, mir_apps, mdepth)));
+    cov.insert("rule".into(), json!(format!("real headless bevy App (AnimationPlugin<C>, AnimationPlugin<Q>, register_animation_key::<C,K>, hand-driven Time): ALL {} frame-delta schedules of length {} over {{1/4, 8, 0}} s x ALL {} key-assignment histories (before each frame: nothing or key := A|B|C|N, including the current key) x 6 chain maps (none, A->B, A->B+B->A, A->N, B->C, reset_after(B)); initial key A (default) or B (builder) x {{one animated component, a second component Q with its own short animator}}; plus a deviation-bounded pass ({} schedules of {} frames, default delta 1/4, <= {} deviations) with <= 2 assignments; plus a disabled pass ({} Apps: all schedules x histories with <= 2 assignments x 4 windows of frames during which the governed animator is disabled: a key change made meanwhile re-targets and rewinds it at once and it plays once enabled; nothing else moves while disabled); plus a mirror pass ({} Apps: all schedules of length {}, entities whose OTHER animator is reset before every frame and therefore reports a state change in every frame, once with C governed / Q foreign and once with Q governed / C foreign, so that both orders of the two events occur whatever order the animate systems have in this process; S5/S6 only). Rules: S1 component unchanged in the frame a key change is acted on; S2 animation restarted from position 0 on the new key's timeline, thereafter the component equals that timeline started from the values at the switch; S3 key without timeline: state None, component frozen; S4 re-assigning the current key restarts nothing; S5 governed animator ended on k in frame f and chain(k)=k' and the user did not re-assign => key is k' in frame f+1; S6 the key changes only by assignment or S5 (the Ended must come from the governed animator and be applied to the key that ended). non-trivial = key changes acted on + chain moves", nsched, depth, hs.len(), dev_apps, horizon, k, dis_apps, mir_apps, mdepth)));
     cov.insert("exhaustive".into(), json!(true));
     cov.insert("apps".into(), json!(acc.apps));
     cov.insert("system_order_in_this_process".into(), json!(if chain_first { "chain_animations, select_animation, animate" } else { "select_animation, chain_animations, animate" }));
@@ -496,7 +550,8 @@ pub fn replay(case: &Value) -> bool {
     let sched: Vec<f64> = case["frame_deltas_s"].as_array().map(|a| a.iter().map(|x| x.as_f64().unwrap()).collect()).unwrap_or_default();
     let assign: Vec<Option<K>> = case["key_assignment_before_each_frame"].as_array().map(|a| a.iter().map(|x| x.as_str().map(|s| *KEYS.iter().find(|k| format!("{k:?}") == s).unwrap())).collect()).unwrap_or_default();
     let mut acc = Acc::default();
-    run_schedule(&sched, &[assign], probe_chain_first(), 0, &mut acc);
+    let dis = case["animator_disabled_before_frame_and_enabled_before_frame"].as_array().map(|a| (a[0].as_u64().unwrap() as usize, a[1].as_u64().unwrap() as usize));
+    run_schedule(&sched, &[assign], &[dis], probe_chain_first(), 0, &mut acc);
     let want_chain = case["chain_map_index"].as_u64().unwrap_or(0);
     let want_two = case["second_animated_component"].as_bool().unwrap_or(false);
     let mut ok = true;
